@@ -18,6 +18,8 @@
 #include <cstddef>
 #include <cstdint>
 #include <exception>
+#include <functional>
+#include <memory>
 #include <iterator>
 #include <map>
 #include <new>
@@ -356,20 +358,51 @@ typename std::enable_if<!std::is_const<Body>::value, void>::type parallel_reduce
 }
 
 // ------------------------------------------------------------------ task_group / parallel_invoke
+// task_group: run(f) may execute f at once, defer it until wait(), or hand it to another strand that
+// runs concurrently with the caller (a seeded choice); wait() runs what was deferred and joins the strands.
 class task_group {
 public:
     task_group() {}
-    ~task_group() {}
+    ~task_group() { try { wait(); } catch (...) {} }
     template<class F> void run(const F &f) {
         sim::RegionScope rs;
-        // executed at the call: a legal execution (a task may start immediately); interleaving with
-        // the spawner's continuation is not explored for task_group
-        sim::Sched::get().yield();
-        f();
+        sim::Sched &s = sim::Sched::get();
+        s.yield();
+        int mode = 0;
+        { sim::IgnoreGuard ig; sim::Chooser *c = s.chooser(); if (c) mode = (int) c->choose(3, sim::T_PLACE, 600); }
+        Item *it = new Item(); it->fn = std::function<void()>(f); it->tid = -1;
+        if (mode == 2 && sim::may_steal(rs.W)) {
+            { sim::IgnoreGuard ig; sim::tbbstats.steals++; items.push_back(it); }
+            sim::strand_delta(+1);
+            it->tid = s.spawn(&task_group::strand_fn, it);
+        } else if (mode == 1) { sim::IgnoreGuard ig; items.push_back(it); }
+        else { std::unique_ptr<Item> own(it); it->fn(); }
     }
-    template<class F> void run_and_wait(const F &f) { run(f); }
-    void wait() { sim::Sched::get().yield(); }
+    template<class F> void run_and_wait(const F &f) { run(f); wait(); }
+    void wait() {
+        sim::Sched &s = sim::Sched::get();
+        std::vector<Item*> mine;
+        { sim::IgnoreGuard ig; mine.swap(items); }
+        std::exception_ptr ex;
+        for (Item *it : mine) if (it->tid < 0) { s.yield(); try { it->fn(); } catch (const sim::SimAbort&) { ex = std::current_exception(); break; } catch (...) { if (!ex) ex = std::current_exception(); } }
+        bool waited = false;
+        for (Item *it : mine) if (it->tid >= 0) { if (!waited) { sim::strand_delta(-1); waited = true; } s.join(it->tid); if (it->ex && !ex) ex = it->ex; }
+        if (waited) sim::strand_delta(+1);
+        for (Item *it : mine) delete it;
+        if (s.is_aborting()) throw sim::SimAbort();
+        if (ex) std::rethrow_exception(ex);
+    }
     void cancel() {}
+private:
+    struct Item { std::function<void()> fn; int tid; std::exception_ptr ex; };
+    static void strand_fn(void *p) {
+        Item *it = (Item*) p;
+        try { it->fn(); } catch (const sim::SimAbort&) { sim::strand_delta(-1); throw; } catch (...) { it->ex = std::current_exception(); }
+        sim::strand_delta(-1);
+    }
+    std::vector<Item*> items;
+    task_group(const task_group&);
+    task_group& operator=(const task_group&);
 };
 template<class F0, class F1> void parallel_invoke(const F0 &f0, const F1 &f1) {
     struct B { const F0 &a; const F1 &b; void operator()(const blocked_range<int> &r) const { for (int i = r.begin(); i < r.end(); i++) { if (i == 0) a(); else b(); } } } body { f0, f1 };
